@@ -13,7 +13,7 @@ TB = ("Trusted: CPython's ast and exception hierarchy; documented semantics of a
 CHECKS = {
     "C01": ("Decides the structural discipline that implies the bound: every pool-task creation is dominated by a completed slot acquire (all edge kinds), tasks are created only "
             "through _start_task, exactly one release per task on every normal/exception/cancellation path of the wrapper, nobody else writes the semaphore, registry move and "
-            "release are one atomic segment (lemma L-LOCK checked each run). With asyncio.Semaphore trusted this implies #running <= size; the numeric bound itself is not computed.",
+            "release are one atomic segment (lemma L-LOCK checked each run); the limit installed is the value assigned, 0 included (LIMIT-IS-THE-ASSIGNED-VALUE). With asyncio.Semaphore trusted this implies #running <= size; the numeric bound itself is not computed.",
             "dominance + who-may-call/write tables + ALL-EXITS path counting on a step-level CFG with exception and cancellation edges", "5 C01",
             TB + "Declined: the arithmetic bound and the idle-time equality is_full <=> running == size (follow from the discipline)."),
     "C02": ("HANDOFF rule (slot acquired by creator, released only in the new task's body: finding F1), life-cycle typestate over CFG x (registry, slot) on all edge kinds: every "
@@ -40,7 +40,7 @@ CHECKS = {
             "CFG reachability + abstract interpretation of the look-up over 4 cases + who-may-call", "5 C06",
             TB + "Declined: 'observes one CancelledError at its next suspension point' (Task semantics). F1 shared."),
     "C07": ("cancel_group validates first and raises only TaskGroupNotFound; cancel_all returns only with an empty table and hands every entry to the helper; spawners cancelled before "
-            "members; member loop exhausts the register; cancelled spawners remembered; CANCEL-STOPS typestate on all three spawner loops; atomic slot hand-off (L-LOCK); "
+            "members; member loop exhausts the register and skips no member whose task is running; cancelled spawners remembered; CANCEL-STOPS typestate on all three spawner loops; atomic slot hand-off (L-LOCK); "
             "who-may-remove groups; register membership premise (a task is findable only through the register filed under its group).",
             "dominance/reachability + iteration typestate (CANCEL-STOPS) + who-may tables", "5 C07",
             TB + "Declined: re-entrant cancel from the group's own iterator (excluded by the property); progress of sibling groups (liveness)."),
@@ -74,12 +74,12 @@ CHECKS = {
             "effect analysis (who writes the paths the getter reads) + VALIDATE-FIRST", "5 C15", TB + "F5a-c are recorded known findings; mixed arithmetic is inconclusive, not a violation."),
     "C16": ("Handshake sequence by completion-dominance (read, json, parser with the session's buffer and the client's width, add_subparsers, add_class_commands(run-time class), "
             "name + newline, drain); command surface (getmembers, '_' filter with public_only default True, function/property dispatch, dash names, member stored under CMD, help enabled); "
-            "EXECUTABLE (a required argument is filed under the parameter name the session looks up); TABLE(annotation kinds at run time vs what the converter does with them) over every public member of every pool class: finding F6.",
+            "EXECUTABLE (a required argument is filed under the parameter name the session looks up); PARSER-CONFIG; TABLE(annotation kinds at run time vs what the converter does with them) over every public member of every pool class: finding F6.",
             "dominance on the CFG + producer/consumer table agreement (annotation kind vs converter domain)", "5 C16",
             TB + "Declined: the bytes on the wire; help text for every width (argparse run-time behaviour). F6 is a recorded known finding."),
     "C17": ("Dispatch structure of _exec_method_and_respond (self, positional kinds in signature order, *args after, rest by keyword, through return_or_exception), RESULT-USED at all "
             "three return_or_exception call sites with the reply forms ok-if-None-else-str / str, add_function_arg mapping incl. the bool-defaults-to-False table over the pool classes, "
-            "return_or_exception semantics (called once, awaited under the coroutine guard, Exception returned, nothing but cancellation escapes - call and await); TOKENS (what reaches parse_args is the line split at blanks, words unchanged); OK-CONSTANT (the reply for a None result is the decoded module constant whose value is the text 'ok'); OMIT-SELF (the omitted-parameter default names the receiver and nothing else); CONVERSION-SITES (a type converter is installed only by add_function_arg from the parameter's own annotation; no argparse action is re-configured); annotation table shared (F6).",
+            "return_or_exception semantics (called once, awaited under the coroutine guard, Exception returned, nothing but cancellation escapes - call and await); TOKENS (what reaches parse_args is the line split at blanks, words unchanged); OK-CONSTANT (the reply for a None result is the decoded module constant whose value is the text 'ok'); OMIT-SELF (the omitted-parameter default names the receiver and nothing else); CONVERSION-SITES (a type converter is installed only by add_function_arg from the parameter's own annotation; no argparse action is re-configured); PARSER-CONFIG (argparse reading options stay at their defaults); UNCONVERTED-ONLY-SENTINEL (only the SUPPRESS object itself bypasses conversion); buffer isolation; annotation table shared (F6).",
             "syntax-directed structure rules + RESULT-USED data-flow + path counting", "5 C17",
             TB + "Declined: equality of effects for every argument value (translation over run-time values). F6 shared (known finding)."),
     "C18": ("HATCHES (all four argparse escape hatches overridden, no print/sys.std*/exit in parser, session, server; positive control in client), per-iteration protocol of listen by "
@@ -89,7 +89,7 @@ CHECKS = {
             TB + "Declined: one reply 'when the wait is over'; output of concurrent sessions (follows from per-instance state)."),
     "C19": ("serve_forever awaits only the start-up and returns the serving task; _serve_forever runs _final_callback exactly once on every way out once serving began and absorbs "
             "cancellation; the unix callback unlinks the path that was listened on; ALL-EXITS(_client_connected_cb => writer.close) over normal/exception/cancellation edges; listen "
-            "re-tests is_serving and leaves on EOF; client closes and clears its flag on exit/EOF.",
+            "re-tests is_serving and leaves on EOF; NO-SPIN-AT-EOF (no stream read is repeated on an empty result without a real suspension in between); client closes and clears its flag on exit/EOF.",
             "ALL-EXITS path counting over all edge kinds + data-flow equality of paths", "5 C19",
             TB + "Declined: everything observable only on real sockets (promptness, refusal of new connections, other sessions unaffected)."),
     "C20": ("__aenter__ takes exactly one item and reaches no task_done on any edge (in particular the cancellation edge of the waiting get); __aexit__ reaches task_done exactly once "
